@@ -175,7 +175,7 @@ def cases(chunk):
             else:
                 b = walk(n2)
             yield {"kind": "scale", "a": a, "b": b, "dim": rng.choice([2, 2, 3]), "idx": chunk["idx"] * 10 + i,
-                   "p": rng.choice([1, 2, 2, "inf"])}
+                   "p": rng.choice([1, 2, 2, "inf"]), "limit_x": 5}
     else:
         raise M.HarnessError("unknown chunk kind %r" % kind)
 
